@@ -1,6 +1,6 @@
 (* C13 model, part 5: s-expression codecs and the entry point run_C13. *)
 From Coq Require Import List Ascii String Bool Arith ZArith.
-From Verif Require Import Lib.Sexp Model.C13_strings Model.C13_google Model.C13_google_spec Model.C13_sphinx Model.C13_numpy.
+From Verif Require Import Lib.Sexp Model.C13_strings Model.C13_google Model.C13_google_spec Model.C13_sphinx Model.C13_numpy Model.C13_numpy_spec Model.C13_sphinx_spec.
 Import ListNotations.
 Open Scope string_scope.
 Open Scope list_scope.
@@ -101,6 +101,10 @@ Definition dec_wsec (s : sexp) : option wsec :=
       do k' <- kind_of_name k; do h' <- dec_str h; do t' <- dec_ostr t; do its' <- as_list_of dec_witem its;
       Some (WItems k' h' t' its')
   | SList [SStr "adm"; h; t; ls] => do h' <- dec_str h; do t' <- dec_ostr t; do ls' <- dec_strs ls; Some (WAdm h' t' ls')
+  | SList [SStr "ret"; m; n; SStr k; h; t; its] =>
+      do m' <- as_bool m; do n' <- as_bool n;
+      do k' <- kind_of_name k; do h' <- dec_str h; do t' <- dec_ostr t; do its' <- as_list_of dec_witem its;
+      Some (WRet m' n' k' h' t' its')
   | _ => None
   end.
 
@@ -111,6 +115,44 @@ Definition dec_sfield (s : sexp) : option sfield :=
   | SList [SStr "var"; SStr fn; n; d0; cs] => do n' <- dec_str n; do d' <- dec_str d0; do cs' <- dec_strs cs; Some (SFVar fn n' d' cs')
   | SList [SStr "raises"; SStr fn; n; d0; cs] => do n' <- dec_str n; do d' <- dec_str d0; do cs' <- dec_strs cs; Some (SFRaises fn n' d' cs')
   | SList [SStr "returns"; SStr fn; d0; cs] => do d' <- dec_str d0; do cs' <- dec_strs cs; Some (SFReturns fn d' cs')
+  | _ => None
+  end.
+
+Definition dec_default (s : sexp) : option (option (nat * str)) :=
+  match s with
+  | SList [] => Some None
+  | SList [SList [f; v]] => do f' <- as_nat f; do v' <- dec_str v; Some (Some (f', v'))
+  | _ => None
+  end.
+
+Definition dec_nitem (s : sexp) : option nitem :=
+  match s with
+  | SList [ns; a; d; o; desc; sep] =>
+      do ns' <- dec_strs ns; do a' <- dec_ostr a; do d' <- dec_default d; do o' <- as_bool o; do desc' <- dec_strs desc;
+      do sep' <- as_nat sep; Some (mkNI ns' a' d' o' desc' sep')
+  | _ => None
+  end.
+
+Definition dec_nsec (s : sexp) : option nsec :=
+  match s with
+  | SList [SStr "text"; ls] => do ls' <- dec_strs ls; Some (NText ls')
+  | SList [SStr "items"; SStr k; h; its] =>
+      do k' <- kind_of_name k; do h' <- dec_str h; do its' <- as_list_of dec_nitem its; Some (NItems k' h' its')
+  | SList [SStr "adm"; h; ls] => do h' <- dec_str h; do ls' <- dec_strs ls; Some (NAdm h' ls')
+  | SList [SStr "deprecated"; h; v; ls] => do h' <- dec_str h; do v' <- dec_str v; do ls' <- dec_strs ls; Some (NDeprecated h' v' ls')
+  | _ => None
+  end.
+
+Definition dec_xfield (s : sexp) : option xfield :=
+  match s with
+  | SList [SStr "param"; SStr fn; ty; n; d0; cs] =>
+      do ty' <- dec_ostr ty; do n' <- dec_str n; do d' <- dec_str d0; do cs' <- dec_strs cs; Some (XParam fn ty' n' d' cs')
+  | SList [SStr "type"; n; a; b] => do n' <- dec_str n; do a' <- dec_str a; do b' <- as_nat b; Some (XType n' a' b')
+  | SList [SStr "var"; SStr fn; n; d0; cs] => do n' <- dec_str n; do d' <- dec_str d0; do cs' <- dec_strs cs; Some (XVar fn n' d' cs')
+  | SList [SStr "vartype"; n; a; b] => do n' <- dec_str n; do a' <- dec_str a; do b' <- as_nat b; Some (XVartype n' a' b')
+  | SList [SStr "raises"; SStr fn; n; d0; cs] => do n' <- dec_str n; do d' <- dec_str d0; do cs' <- dec_strs cs; Some (XRaises fn n' d' cs')
+  | SList [SStr "returns"; SStr fn; d0; cs] => do d' <- dec_str d0; do cs' <- dec_strs cs; Some (XReturns fn d' cs')
+  | SList [SStr "rtype"; a; b] => do a' <- dec_str a; do b' <- as_nat b; Some (XRtype a' b')
   | _ => None
   end.
 
@@ -196,20 +238,34 @@ Definition run_C13 (s : sexp) : sexp :=
       | Some c', Some secs' => SList (map enc_gsec (expect_google c' secs'))
       | _, _ => bad_input
       end
-  | SList [SStr "gwf"; c; secs] =>
-      match dec_ctx c, as_list_of dec_wsec secs with
-      | Some c', Some secs' => of_bool (wf_secs c' secs')
-      | _, _ => bad_input
+  | SList [SStr "gwf"; o; c; secs] =>
+      match dec_opts o, dec_ctx c, as_list_of dec_wsec secs with
+      | Some o', Some c', Some secs' => of_bool (wf_secs o' c' secs')
+      | _, _, _ => bad_input
       end
   | SList [SStr "nparse"; SList [tr; sk]; c; ls] =>
       match as_bool tr, as_bool sk, dec_ctx c, dec_strs ls with
       | Some tr', Some sk', Some c', Some ls' => enc_presult (parse_numpy (mkNOpts tr' sk') c' ls')
       | _, _, _, _ => bad_input
       end
+  | SList [SStr "nspec"; c; secs] =>
+      match dec_ctx c, as_list_of dec_nsec secs with
+      | Some c', Some secs' =>
+          SList [SList (map enc_str (render_numpy secs')); SList (map enc_gsec (expect_numpy c' secs'));
+                 of_bool (wf_nsecs c' secs'); of_bool (gap_F6 c' secs')]
+      | _, _ => bad_input
+      end
   | SList [SStr "sparse"; c; ra; ls] =>
       match dec_ctx c, as_bool ra, dec_strs ls with
       | Some c', Some ra', Some ls' => SList (map enc_gsec (parse_sphinx c' ra' ls'))
       | _, _, _ => bad_input
+      end
+  | SList [SStr "xspec"; c; ra; text; fs] =>
+      match dec_ctx c, as_bool ra, dec_strs text, as_list_of dec_xfield fs with
+      | Some c', Some ra', Some t', Some fs' =>
+          SList [SList (map enc_str (render_sphinx_full t' fs')); SList (map enc_gsec (expect_sphinx_full c' ra' t' fs'));
+                 of_bool (wf_sphinx_full t' fs'); of_bool (gap_F8 c' fs')]
+      | _, _, _, _ => bad_input
       end
   | SList [SStr "sspec"; c; ra; text; fs] =>
       match dec_ctx c, as_bool ra, dec_strs text, as_list_of dec_sfield fs with
